@@ -12,6 +12,7 @@ void verif_memfile_truncate(long file_id, long nbytes);
 void verif_memfile_rewind(long file_id);               // get position 0, put position end, state cleared
 long verif_memfile_gpos(long file_id);
 int verif_memfile_failed(long file_id);
+void verif_memfile_name(long file_id, const char* name);   // the file can now be opened under this name by the code under test
 #ifdef VERIF_NATIVE
 const char* verif_memfile_path(long file_id);
 #endif
